@@ -91,13 +91,15 @@ def isSepC (c : BidiClass) : Prop := c = ES ∨ c = CS
 def nearSep (p1 : BidiClass) (dh : Option BidiClass) : Prop :=
   isSepC p1 ∨ dh = some ES ∨ dh = some CS ∨ dh = some ET
 
-/-- a BN unit after the forward pass (before W7): BN, ON, or EN like the next non-BN unit -/
+/-- a BN unit after the forward pass (before W7): BN, ON, or EN like the next non-BN unit, which
+    then is an ET (after W1) -/
 def okG (p1 r : BidiClass) (dh sh : Option BidiClass) : Prop :=
-  (r = BN ∨ r = ON ∨ (r = EN ∧ sh = some EN)) ∧ (r ≠ BN → nearSep p1 dh)
+  (r = BN ∨ r = ON ∨ (r = EN ∧ sh = some EN ∧ dh = some ET)) ∧ (r ≠ BN → nearSep p1 dh)
 
-/-- a BN unit in the end: BN, ON, or the final value of the next non-BN unit -/
+/-- a BN unit in the end: BN, ON, or the final value of the next non-BN unit, which then is an ET
+    (after W1) -/
 def ok7 (p1 r : BidiClass) (dh sh : Option BidiClass) : Prop :=
-  (r = BN ∨ r = ON ∨ sh = some r) ∧ (r ≠ BN → nearSep p1 dh)
+  (r = BN ∨ r = ON ∨ (sh = some r ∧ dh = some ET)) ∧ (r ≠ BN → nearSep p1 dh)
 
 theorem okG_BN (p1 : BidiClass) (dh sh : Option BidiClass) : okG p1 BN dh sh :=
   ⟨Or.inl rfl, fun h => absurd rfl h⟩
@@ -126,6 +128,17 @@ theorem sC1_of_ne_NSM (p1 c : BidiClass) (hc : c ≠ NSM) : sC1 p1 c = c := by
 theorem sC1_sep_NSM (q : BidiClass) (hq : isSepC q) : sC1 q NSM = q := by
   rcases hq with rfl | rfl <;> rfl
 
+theorem nxt1_ON_ET (q : BidiClass) (cs : List BidiClass) (h : nxt1 ON cs = some ET) : nxt1 q cs = some ET := by
+  unfold nxt1 at h ⊢
+  cases hh : (fl cs).head? with
+  | none => rw [hh] at h; cases h
+  | some c =>
+    rw [hh] at h
+    simp only [Option.map_some, Option.some.injEq] at h ⊢
+    by_cases hn : c = NSM
+    · subst hn; cases h
+    · rw [sC1_of_ne_NSM _ _ hn] at h ⊢; exact h
+
 /-- the state `ON` of the pass after rewritten BN units is at least as restrictive as the
     separator's own state -/
 theorem MatchG_sep (q : BidiClass) (hq : isSepC q) (cs res sp : List BidiClass)
@@ -139,7 +152,11 @@ theorem MatchG_sep (q : BidiClass) (hq : isSepC q) (cs res sp : List BidiClass)
       by_cases hc : c = BN
       · subst hc
         rw [MatchG_cons_BN] at h ⊢
-        exact ⟨⟨h.1.1, fun _ => Or.inl hq⟩, ih _ _ h.2⟩
+        refine ⟨⟨?_, fun _ => Or.inl hq⟩, ih _ _ h.2⟩
+        rcases h.1.1 with h1 | h1 | ⟨h1, h2, h3⟩
+        · exact Or.inl h1
+        · exact Or.inr (Or.inl h1)
+        · exact Or.inr (Or.inr ⟨h1, h2, nxt1_ON_ET q cs h3⟩)
       · cases sp with
         | nil => exact absurd h (MatchG_cons_ne_nil okG _ _ hc _ _ _)
         | cons s sp =>
